@@ -20,6 +20,8 @@
  Rk field/key     : the parameter classes store every configuration entry under its own name (frozen rename table).
  Rx export keys   : each loaded parameter is exported under the key its loader reads it from.
  Re for-each      : loops that act on every item are never left early (break / return).
+ R8 mode copy    : the selected mode is copied onto the request completely and identically in every copy block.
+ Rn arg roles     : a variable named like a parameter of the callee is handed to that parameter (no exchanged roles).
 """
 import ast
 
@@ -392,6 +394,23 @@ def re_foreach(ctx):
     ctx.need('Re.for-each', 1)
 
 
+def r_mode_copy(ctx):
+    """R8: a mode selected by the planner is copied onto the request completely and identically in every copy block (offset,
+    penalties, baud rate, OSNR threshold, tx OSNR, bit rate, format)"""
+    from .common import mode_copy_rule
+    mode_copy_rule(ctx, 'R8.mode-copy', 'the reverse direction (and the reported result) would be equalised without the offset of the selected mode')
+    ctx.need('R8.mode-copy', 3)
+
+
+def rn_arg_roles(ctx):
+    """Rn: a variable named like a parameter of the callee is handed to that parameter (no exchanged roles such as
+    f(to_degree, from_degree) for def f(from_degree, to_degree)); calls to resolved package functions, canonical form"""
+    from .common import arg_roles_rule
+    from ..memo import scope_funcs
+    n = arg_roles_rule(ctx, 'Rn.arg-roles', scope_funcs(ctx.repo, 'C06') + [f_ for f_ in ctx.repo.module('gnpy.core.network').functions.values() if 'roadm' in f_.name], 'the ROADM would look up the path / target of the opposite direction')
+    ctx.check('Rn.arg-roles', 'argument / parameter name scan', True, 'C06|arg-roles-scan', '', f'{n} argument(s) named like another parameter judged')
+
+
 from ..memo import rule_for as _memo_rule
 
 RULES_MEMO = ('Rm.memo', _memo_rule('C06', 'the equalisation computed for another spectrum or target would be applied'))
@@ -401,4 +420,4 @@ from ..presence import rule_for as _presence_rule
 
 RULES_PRESENCE = ('Rp.presence', _presence_rule('C06', 'a ROADM target of exactly 0 dBm would be ignored and another target applied'))
 
-RULES = [('R6.stateless', r6_stateless), ('R1.formula', r1_formula), ('R2.policy', r2_policy), ('R4.one-policy', r4_one_policy), ('R5.design', r5_design), RULES_MEMO, RULES_PRESENCE, ('R7.channel-order', r7_channel_order), ('Rk.field-key', rk_field_key), ('Rx.export-keys', rx_export_keys), ('Re.for-each', re_foreach)]
+RULES = [('R6.stateless', r6_stateless), ('R1.formula', r1_formula), ('R2.policy', r2_policy), ('R4.one-policy', r4_one_policy), ('R5.design', r5_design), RULES_MEMO, RULES_PRESENCE, ('R7.channel-order', r7_channel_order), ('Rk.field-key', rk_field_key), ('Rx.export-keys', rx_export_keys), ('Re.for-each', re_foreach), ('R8.mode-copy', r_mode_copy), ('Rn.arg-roles', rn_arg_roles)]
